@@ -412,7 +412,24 @@ def b_set(ex, args, kwargs, st, sink, node):
     yield st, SV(SETT(REF("object")), z3.K(z3.IntSort(), z3.BoolVal(False)))  # empty set of objects
 
 
+seqsum = z3.Function("seqsum", z3.SeqSort(z3.IntSort()), z3.IntSort())    # sum() of a list of ints: only that it is an int and a function of the list is used
+
+
+def b_sum(ex, args, kwargs, st, sink, node):
+    if len(args) != 1 or kwargs:
+        raise Unsupported("sum() with a start value")
+    v = args[0]
+    if v.ty.kind == "seq" and v.ty.elem.kind in ("int", "bool"):
+        yield st, mk_int(seqsum(v.v))
+        return
+    if v.ty.kind == "seq" and v.ty.elem.kind == "any" and z3.is_app(v.v) and v.v.decl().kind() == z3.Z3_OP_SEQ_EMPTY:
+        yield st, mk_int(0)
+        return
+    raise Unsupported(f"sum() of {v.ty!r}")
+
+
 EXTERNALS = {
+    "builtins.sum": b_sum,
     "builtins.set": b_set,
     "struct.pack": struct_pack,
     "struct.unpack": struct_unpack,
@@ -570,6 +587,11 @@ def m_bytes_decode(ex, d, args, kwargs, st, sink, node):
             raise Unsupported(f"decode({enc!r}, {errors!r})")
         yield st, mk_str(z3.If(utf8_ok(b), unutf8(b), fresh(STR, "decoded_with_" + errors).v))
         return
+    if enc in ("utf-8-sig", "utf_8_sig"):
+        # the "signature" codec drops one leading byte order mark (EF BB BF) and then decodes as utf-8
+        bom = mk_bytes(b"\xef\xbb\xbf").v
+        b = z3.If(z3.PrefixOf(bom, b), z3.SubSeq(b, 3, z3.Length(b) - 3), b)
+        enc = "utf-8"
     if enc == "utf-8":
         for s2, ok in ex.fork(st, utf8_ok(b)):
             if ok:
